@@ -39,6 +39,7 @@ func (c03) Plan(tier string, seed int64) []mon.Workload {
 		{Name: "branch-table", N: 8 * 16 * 2 * 3, Exhaustive: true},
 		{Name: "switch-chains", N: c03SwitchN(), Exhaustive: true},
 		{Name: "loop-counts", N: int64(len(c03CountNs) * len(c03CountLoops)), Exhaustive: true},
+		{Name: "loop-control", N: int64(len(c03LCOuter) * len(c03LCCtl) * len(c03LCNested) * len(c03LCOrder)), Exhaustive: true},
 		{Name: "map-iteration", N: n / 10},
 		{Name: "many-locals", N: manyLocalsN(), Exhaustive: true},
 		{Name: "stale-lookup", N: staleLookupN(), Exhaustive: true},
@@ -187,6 +188,46 @@ func c03LoopCount(i int64) progCase {
 	o := drive.Parse("loop-counts", sb.String())
 	if o.Err != nil {
 		panic("c03: loop-counts program does not parse: " + firstN(sb.String(), 5) + ": " + o.Err.Error())
+	}
+	l, err := gt.FromStmts(o.Stmts)
+	if err != nil {
+		panic(err)
+	}
+	st := gt.CloneStmts(l)
+	return progCase{Stmts: st, Src: gt.Print(st, nil), Points: []*ref.Point{ref.NewPoint("m", nil, map[string]any{"f1": int64(1)}, time.Unix(1700000000, 0))}}
+}
+
+// loop-control (exhaustive, v1 and v2): a conditional continue or break in
+// the body of every kind of loop, written before / after / on both sides of a
+// nested statement of every kind (a three-clause loop, a for-in, a loop with
+// its own break, an if block, nothing). continue skips the rest of THIS
+// iteration of THIS loop, break ends THIS loop, whatever else the body holds.
+var c03LCOuter = []string{"for e in [1, 2, 3, 4] {\nBODY}\n", "for e in \"abcd\" {\nBODY}\n", "for e = 1; e <= 4; e = e + 1 {\nBODY}\n", "e = 0\nfor ; e < 4; {\n  e = e + 1\nBODY}\n", "for e in [1, 2, 3, 4] {\n  if true {\nBODY  }\n  p(\"tail\", e)\n}\n"}
+var c03LCCtl = []string{"  if e == 2 || e == \"b\" {\n    continue\n  }\n", "  if e == 3 || e == \"c\" {\n    break\n  }\n", "  if e == 1 || e == \"a\" {\n    continue\n  } elif e == 3 || e == \"c\" {\n    break\n  }\n", "  if e == 2 || e == \"b\" {\n    if true {\n      continue\n    }\n  }\n"}
+var c03LCNested = []string{"", "  for j = 0; j < 2; j = j + 1 {\n    p(\"in\", e, j)\n  }\n", "  for k in [7, 8] {\n    p(\"in\", e, k)\n  }\n", "  for j = 0; j < 3; j = j + 1 {\n    if j == 1 {\n      break\n    }\n    p(\"in\", e, j)\n  }\n",
+	"  for k in [7, 8] {\n    if k == 7 {\n      continue\n    }\n    p(\"in\", e, k)\n  }\n", "  if e != 99 {\n    p(\"if\", e)\n  }\n", "  for ; false; {\n  }\n"}
+var c03LCOrder = []string{"CN", "NC", "CNC", "NCN"}
+
+func c03LoopControl(i int64) progCase {
+	order := c03LCOrder[int(i)%len(c03LCOrder)]
+	i /= int64(len(c03LCOrder))
+	nested := c03LCNested[int(i)%len(c03LCNested)]
+	i /= int64(len(c03LCNested))
+	ctl := c03LCCtl[int(i)%len(c03LCCtl)]
+	outer := c03LCOuter[int(i)/len(c03LCCtl)]
+	body := "  p(\"top\", e)\n"
+	for _, ch := range order {
+		if ch == 'C' {
+			body += ctl
+		} else {
+			body += nested
+		}
+		body += "  p(\"mid\", e)\n"
+	}
+	text := strings.Replace(outer, "BODY", body, 1) + "p(\"end\")\n"
+	o := drive.Parse("loop-control", text)
+	if o.Err != nil {
+		panic("c03: loop-control program does not parse: " + text + ": " + o.Err.Error())
 	}
 	l, err := gt.FromStmts(o.Stmts)
 	if err != nil {
@@ -454,6 +495,12 @@ func (k c03) Run(c *mon.Ctx, workload string, i int64) {
 	}
 	if workload == "branch-table" {
 		runV1Compare(c, c03BranchTable(i), "c03.p")
+		return
+	}
+	if workload == "loop-control" {
+		pc := c03LoopControl(i)
+		runV1Compare(c, pc, "c03.p")
+		runV2Text(c, "loop-control", pc.Src)
 		return
 	}
 	if workload == "loop-counts" {
